@@ -78,6 +78,7 @@ type InstSpec struct {
 	ReadChanSlow  int64       `json:"read_chan_slow,omitempty"`
 	Funcs         []string    `json:"funcs,omitempty"`  // custom scalar functions registered before Execute (F14)
 	Schema        []SchemaFld `json:"schema,omitempty"` // WithSchema: input validation with defaults
+	Late          bool        `json:"late,omitempty"`   // not created by Setup: a client op "create" does it while others run
 }
 
 type SchemaFld struct {
@@ -376,6 +377,28 @@ func (e *Env) Setup() error {
 	var setupErr error
 	err := e.Sim.Do("setup", func() {
 		for i := range e.C.Insts {
+			if e.C.Insts[i].Late {
+				continue
+			}
+			if setupErr = e.createInst(i); setupErr != nil {
+				return
+			}
+		}
+	}, 200000, 0)
+	if err != nil {
+		return err
+	}
+	return setupErr
+}
+
+// createInst creates instance i of the case (instances are created in index order).
+func (e *Env) createInst(i int) error {
+	if len(e.Insts) != i {
+		return fmt.Errorf("inst %d created out of order (have %d)", i, len(e.Insts))
+	}
+	var setupErr error
+	{
+		{
 			spec := &e.C.Insts[i]
 			in := &Inst{Idx: i, Spec: spec, Tables: map[string]tableHandle{}}
 			opts := []streamsql.Option{streamsql.WithLogger(capLogger{e})}
@@ -404,13 +427,11 @@ func (e *Env) Setup() error {
 			}
 			in.S = streamsql.New(opts...)
 			if err := in.S.Execute(spec.SQL); err != nil {
-				setupErr = fmt.Errorf("inst %d: Execute(%q): %v", i, spec.SQL, err)
-				return
+				return fmt.Errorf("inst %d: Execute(%q): %v", i, spec.SQL, err)
 			}
 			for _, ts := range spec.Tables {
 				if err := e.registerTable(in, ts); err != nil {
-					setupErr = err
-					return
+					return err
 				}
 			}
 			in.sinkCalls = make([]int, len(spec.Sinks))
@@ -422,9 +443,6 @@ func (e *Env) Setup() error {
 				e.startChanReader(in)
 			}
 		}
-	}, 200000, 0)
-	if err != nil {
-		return err
 	}
 	return setupErr
 }
@@ -591,6 +609,10 @@ func (e *Env) execOp(ci, k int, op *Op) {
 		in.Spec.Sinks = append(in.Spec.Sinks, sp)
 		in.sinkCalls = append(in.sinkCalls, 0)
 		e.addSink(in, len(in.Spec.Sinks)-1, &in.Spec.Sinks[len(in.Spec.Sinks)-1])
+	case "create":
+		if err := e.createInst(op.I); err != nil {
+			rec.Err = err.Error()
+		}
 	case "regfn":
 		registerTestFunc(op.T)
 	case "unregfn":
